@@ -667,13 +667,28 @@ fn main() {
             let bar = std::sync::Arc::new(std::sync::Barrier::new(n));
             let results: Vec<(Vec<String>, Regs)> = std::thread::scope(|sc| {
                 let hs: Vec<_> = (0..n)
-                    .map(|_| {
+                    .enumerate()
+                    .map(|(t, _)| {
                         let mut r = regs.clone();
                         let lines = &par_lines;
                         let bar = bar.clone();
                         sc.spawn(move || {
+                            // a scratch pass over the same lines in REVERSE order (answers discarded, own registers) runs before the
+                            // judged pass on odd threads and after it on even threads, so that different calls overlap in time
+                            let scratch = |base: &Regs| {
+                                let mut s = base.clone();
+                                for l in lines.iter().rev() {
+                                    let _ = run_line(&mut s, l);
+                                }
+                            };
                             bar.wait();
+                            if t % 2 == 1 {
+                                scratch(&r);
+                            }
                             let out: Vec<String> = lines.iter().map(|l| run_line(&mut r, l)).collect();
+                            if t % 2 == 0 {
+                                scratch(&r);
+                            }
                             (out, r)
                         })
                     })
